@@ -65,6 +65,9 @@ def keymap(o):
   return DKEYS
 
 
+TDICT_SPEC = pg.typing.Dict([(pg.typing.StrKey(), pg.typing.Any())])
+
+
 _EVENT_SINK: Optional[List] = None
 
 
@@ -94,6 +97,8 @@ def new_root(kind: str):
   holder = [None]
   if kind == 'dict':
     o = pg.Dict(onchange_callback=_make_cb(holder))
+  elif kind == 'tdict':
+    o = pg.Dict(value_spec=TDICT_SPEC, onchange_callback=_make_cb(holder))
   elif kind == 'list':
     o = pg.List(onchange_callback=_make_cb(holder))
   elif kind == 'obj':
@@ -445,7 +450,9 @@ class Replayer:
       for (ek, ev), (gk, gv) in zip(exp, got):
         if ek != gk or not self.match_value(ev, gv):
           raise Divergence('content', f'node {n}: spec {exp} impl {got!r}')
-      want_cls = {'dict': pg.Dict, 'list': pg.List, 'obj': A, 'objb': B, 'objc': C}[kinds[n - 1]]
+      want_cls = {'dict': pg.Dict, 'tdict': pg.Dict, 'list': pg.List, 'obj': A, 'objb': B, 'objc': C}[kinds[n - 1]]
+      if kinds[n - 1] in ('dict', 'tdict') and (o.value_spec is not None) != (kinds[n - 1] == 'tdict'):
+        raise Divergence('content', f'node {n}: value spec binding {o.value_spec!r} but the model says {kinds[n - 1]}')
       if type(o) is not want_cls:
         raise Divergence('content', f'node {n}: class {type(o).__name__} expected {want_cls.__name__}')
     # -- returned value
@@ -637,9 +644,9 @@ class Replayer:
         if st['subs'][n - 1]:
           kw['onchange_callback'] = _make_cb(None)
         o = pg.List(items, accessor_writable=st['accw'][n - 1], **kw)
-      elif k == 'dict':
+      elif k in ('dict', 'tdict'):
         items = {DKEYS[kk]: (build(v) if 1 <= v <= n_nodes else leaf(v)) for kk, v in st['ditems'][n - 1]}
-        kw = {}
+        kw = {'value_spec': TDICT_SPEC} if k == 'tdict' else {}
         if st['subs'][n - 1]:
           kw['onchange_callback'] = _make_cb(None)
         o = pg.Dict(items, accessor_writable=st['accw'][n - 1], **kw)
